@@ -352,7 +352,9 @@ Definition used_event_after (f : N) : N := if bit f B_EVENT_IDX then 1 else 0.
 
 Inductive gop :=
 | GBlkReadonly | GBlkFlush | GConsoleSize | GConsoleEmergWrite | GGpuGetEdid
-| GNetHeader | GNetSend (len : N) | GRngRequest (len : N).
+| GNetHeader | GNetSend (len : N) | GRngRequest (len : N)
+| GGpuEdidVia (entry : N)          (* 9: edid_preferred_resolution, 10: edid_supported_resolutions: both go through get_edid *)
+| GNetRecvHdr.                      (* VirtIONet::receive: the offset of RxBuffer::packet() in the buffer = the header size in use *)
 
 (* result, events, used_event of the queue used. The device of the scenario completes a chain by
    zero-filling its writable part and reporting its total writable length. *)
@@ -380,6 +382,10 @@ Definition gop_run (f : N) (cfg : list N) (gen : N) (o : gop) : outcome N * list
       (* an empty packet is sent as the header alone (no zero-length buffer is added to the queue) *)
       (Ok 0, chain_ev f ((if bit f B_VERSION_1 then 12 else 10) :: (if len =? 0 then [] else [len])) [] 1, used_event_after f)
   | GRngRequest len => (Ok len, chain_ev f [] [len] 0, used_event_after f)
+  | GGpuEdidVia _ =>
+      if bit f 1 then (Err EIoError, chain_ev f [4096] [4096] 0, used_event_after f)
+      else (Err EUnsupported, [], 0)
+  | GNetRecvHdr => (Ok (if bit f B_VERSION_1 then 12 else 10), [], 0)   (* the events of the receive path are C16's *)
   end.
 
 (* which driver an operation belongs to *)
@@ -387,6 +393,6 @@ Definition gop_driver_ok (d : driver) (o : gop) : bool :=
   match o, d with
   | GBlkReadonly, DBlk | GBlkFlush, DBlk | GConsoleSize, DConsole | GConsoleEmergWrite, DConsole
   | GGpuGetEdid, DGpu | GNetHeader, DNetRaw | GNetSend _, DNetRaw | GNetSend _, DNet
-  | GRngRequest _, DRng => true
+  | GRngRequest _, DRng | GGpuEdidVia _, DGpu | GNetRecvHdr, DNet => true
   | _, _ => false
   end.
